@@ -1,15 +1,23 @@
 """C07 — multi-node strategies return the right valid answer, in bounded time (spec/Collector.tla).
 
-Collector.tla is model-checked exhaustively; its initial states (what every node answers and in which
-phase, one representative per multiset of nodes) are enumerated by TLC and replayed in real time on
-each of the 14 real strategies (strategies/*/{best,majority,first,latest}); the recorded observations
-(what each fake returned and when, what the strategy returned and when) are validated by TLC against
-Trace_Collector.tla, which classifies every instant as before / ambiguous / after the soft and hard
-deadline and accepts iff some resolution of the ambiguous instants and of `select` explains the result.
+Collector.tla (one call, and call after call on one long-lived instance: NextCall) and CollectorInst.tla
+(two calls in flight on one instance) are model-checked exhaustively; CollectorSem.tla (designs that keep
+state in the instance: a leaked processing slot, a tally shared between calls - right on every fresh
+instance) must be rejected by TLC.  Scenarios: (a) the initial states of Collector.tla (what every node
+answers and in which phase, one representative per multiset of nodes), enumerated by TLC - single calls on
+a fresh instance; (b) HISTORIES of >= process concurrency + 2 calls on ONE instance drawn by TLC from
+Scen_CollectorInst.tla (families: a recurring fault then healthy calls, healthy / dead alternating, the same
+call repeated, overlapped pairs, free).  Both are replayed in real time on each of the 14 real strategies
+(strategies/*/{best,majority,first,latest}); the recorded observations (what each fake returned and when,
+what the strategy returned and when, for which call the returned object was made) are validated by TLC
+against Trace_Collector.tla, which classifies every instant as before / ambiguous / after the soft and hard
+deadline and accepts a call iff some resolution of the ambiguous instants and of `select` explains the
+result - every call of a history by the same rules, whatever the instance has been through.
 """
 import json
 import os
 import random
+from concurrent.futures import ThreadPoolExecutor
 import vf
 
 PID = "C07"
@@ -67,16 +75,23 @@ def probe_proposal_nil():
 
 def driver(scenarios, tag):
     """Run the scenarios; scenarios during which the driver process was stalled (scheduling delay above
-    JIT_MS, measured by the driver) are run again, with less parallelism, until they are clean."""
+    JIT_MS, measured by the driver) are run again, with less parallelism, until they are clean.  A scenario with
+    a call that never returned is not run again here: it is judged as recorded (and confirmed alone by
+    vf.conformance); a call that never returns may spin and be the very cause of the stalls of the others."""
     rows = go_driver(scenarios, tag)
     by = {}
     for r in rows:
         by.setdefault(r["sc"], []).append(r)
-    todo = [s for s in scenarios if _disturbed(by.get(s["sc"]))]
+    hung = {sc for sc, rs in by.items() if _noreturn(rs)}
+    todo = [s for s in scenarios if s["sc"] not in hung and _disturbed(by.get(s["sc"]))]
     attempt = 0
     while todo:
         attempt += 1
         if attempt > 4:
+            if hung:
+                vf.log("%d scenarios still disturbed by scheduling stalls; %d scenario(s) with a call that never returned "
+                       "are judged first" % (len(todo), len(hung)))
+                break
             raise vf.Broken("%d scenarios could not be measured without scheduling stalls > %d ms (machine too loaded)"
                             % (len(todo), JIT_MS))
         _state["reruns"] += len(todo)
@@ -88,17 +103,25 @@ def driver(scenarios, tag):
         for s in todo:
             if s["sc"] in nb:
                 by[s["sc"]] = nb[s["sc"]]
-        todo = [s for s in todo if _disturbed(by.get(s["sc"]))]
+                if _noreturn(nb[s["sc"]]):
+                    hung.add(s["sc"])
+        todo = [s for s in todo if s["sc"] not in hung and _disturbed(by.get(s["sc"]))]
     out = []
     for s in scenarios:
         rs = by.get(s["sc"], [])
         for r in rs:
-            if r["ev"] == "Reset" and any(o["k"] == "none" for o in r["obs"]):
-                raise vf.Broken("scenario %s: a provider fake was never called or never returned: %s" % (s["sc"], r))
+            # (a node that was never asked - observation "none" - is no behaviour of the specification: the
+            # trace specification rejects the call; the instance may have answered from something it kept)
+            if r["ev"] == "Return" and r.get("noctx"):
+                raise vf.Broken("scenario %s: a request reached a node without the caller's context values" % s["sc"])
             if r["ev"] == "Return" and r.get("blocked"):
                 _state["blocked"][s["strat"]] = _state["blocked"].get(s["strat"], 0) + 1
         out += rs
     return out
+
+
+def _noreturn(rs):
+    return any(r["ev"] == "Return" and r.get("noreturn") for r in rs or [])
 
 
 def _disturbed(rs):
@@ -112,8 +135,32 @@ def in_time_valid(s):
     return [p for p in s["provs"] if p["k"] == "valid" and p["ph"] != "late"]
 
 
+def calls_of(s):
+    """The calls of a scenario as single-call scenarios (a single call is the history of length one)."""
+    if s.get("calls"):
+        return [dict(s, provs=c["provs"], calls=None) for c in s["calls"]]
+    return [s]
+
+
 def features(s):
     """What a scenario exercises (used to stratify the sample and to count non-trivial scenarios)."""
+    if s.get("calls"):
+        f = set()
+        cs = calls_of(s)
+        per = [features(c) for c in cs]
+        for x in per:
+            f |= x
+        ok = [bool(in_time_valid(c)) for c in cs]
+        faulty = [any(p["k"] != "valid" or p["ph"] == "late" for p in c["provs"]) for c in cs]
+        if any(faulty[i] and any(ok[i + 1:]) for i in range(len(cs))):
+            f.add("hist:fault-then-answer")
+        if any(ok[i] and any(not o for o in ok[i + 1:]) for i in range(len(cs))):
+            f.add("hist:answer-then-nothing")
+        if any(c["at"] != "seq" for c in s["calls"]):
+            f.add("hist:overlap")
+        if len(cs) >= s.get("pc", 0) + 2:
+            f.add("hist:longer-than-pc")
+        return f
     f = set()
     iv = in_time_valid(s)
     var = s["variant"]
@@ -159,8 +206,9 @@ RARE = ["threshold-above-strict-majority", "at-threshold", "below-threshold", "e
 
 def sig_of(s):
     var = s["variant"]
-    return {"strat": s["strat"], "family": var,
-            "nil_in_time": any(p["k"] == "invalid" and p.get("inv") == "nil" and p["ph"] != "late" for p in s["provs"]),
+    return {"strat": s["strat"], "family": var, "history": bool(s.get("calls")),
+            "nil_in_time": any(p["k"] == "invalid" and p.get("inv") == "nil" and p["ph"] != "late"
+                               for c in calls_of(s) for p in c["provs"]),
             "thr_above_strict_majority": var == "Majority" and s["thr"] > s["n"] // 2 + 1}
 
 
@@ -209,11 +257,98 @@ def scenarios(tier):
                 q["inv"] = rnd.choice(invs) if p["k"] == "invalid" else ""
                 provs.append(q)
             rnd.shuffle(provs)
+            # the process concurrency the instance is constructed with (main.go: GOMAXPROCS unless configured;
+            # no strategy's answer may depend on it)
             out.append({"strat": strat, "variant": var, "n": b["n"], "thr": b["thr"],
-                        "cap": b["n"] if capr == "n" else 1, "T": T_MS, "seed": rnd.randrange(1 << 30), "provs": provs})
+                        "cap": b["n"] if capr == "n" else 1, "T": T_MS, "seed": rnd.randrange(1 << 30), "provs": provs,
+                        "pc": rnd.choice([1, 2, 3, 4, 16])})
     rnd.shuffle(out)
+    hs = histories(tier, nil_ok, rnd)
+    # histories first: they take longest, the single calls fill the driver's workers beside them
+    out = hs + out
     for i, s in enumerate(out):
         s["sc"] = i + 1
+    return out
+
+
+# quota of histories per strategy (quick tier), per family of Scen_CollectorInst.tla; for "leak" per recurring
+# fault (strict: the faulty answer is certainly consumed / not), for the fault "invalid" per validity rule
+HQ = {"stale": 4, "repeat": 2, "pairs": 5, "free": 4,
+      "leak": {"error": (1, 1), "silent": (1, 1), "late": (1, 1), "invalid": (2, 1)}}
+
+
+def histories(tier, nil_ok, rnd):
+    """Histories of calls on one instance, drawn by TLC (simulation, seeded) from Scen_CollectorInst.tla."""
+    mult = 4 if tier == "thorough" else 1
+    num = 2500 * mult
+    with ThreadPoolExecutor(max_workers=2) as ex:
+        f1 = ex.submit(vf.tlc_scenarios, PID, "Scen_CollectorInst", "Scen_CollectorInst_leak.cfg", num=num, depth=40,
+                       name="scen-hist-leak")
+        f2 = ex.submit(vf.tlc_scenarios, PID, "Scen_CollectorInst", "Scen_CollectorInst.cfg", num=num, depth=40,
+                       name="scen-hist")
+        raw = f1.result()[:num] + f2.result()[:num]
+    pool = {}
+    for h in raw:
+        if len(h["calls"]) < h["pc"] + 2:
+            raise vf.Broken("history shorter than process concurrency + 2: %s" % h)
+        pool.setdefault((h["variant"], h["fam"], h["flt"], h["strict"]), []).append(h)
+    out = []
+    short = []
+    for strat in sorted(STRATS):
+        var, capr, invs = STRATS[strat]
+        if strat == "beaconblockproposal/best" and not nil_ok:
+            invs = [i for i in invs if i != "nil"]
+
+        taken = [0]
+
+        def take(fam, flt, strict, k, inv=None):
+            cell = pool.get((var, fam, flt, strict), [])
+            have = [h for h in cell if invs or not any(p["k"] == "invalid" for c in h["calls"] for p in c["provs"])]
+            if len(have) < k and not invs:
+                # a strategy without validity rules: too few histories drawn without an invalid answer - take others
+                # with the node failing instead (also a member of the set the specification chooses from)
+                for h in cell:
+                    if h not in have and len(have) < k:
+                        have.append(dict(h, calls=[{"at": c["at"], "provs": [
+                            dict(p, k="error", v=0, s=0) if p["k"] == "invalid" else p for p in c["provs"]]} for c in h["calls"]]))
+            if len(have) < k:
+                short.append((strat, fam, flt, strict, len(have), k))
+            for h in rnd.sample(have, min(k, len(have))):
+                taken[0] += 1
+                calls = []
+                for c in h["calls"]:
+                    provs = []
+                    for p in c["provs"]:
+                        q = dict(p)
+                        q["inv"] = (inv or rnd.choice(invs)) if p["k"] == "invalid" else ""
+                        provs.append(q)
+                    calls.append({"at": c["at"], "provs": provs})
+                # the nodes of an instance keep their place from call to call: one permutation per history
+                perm = list(range(h["n"]))
+                rnd.shuffle(perm)
+                for c in calls:
+                    c["provs"] = [c["provs"][i] for i in perm]
+                out.append({"strat": strat, "variant": var, "n": h["n"], "thr": h["thr"], "pc": h["pc"],
+                            "cap": h["n"] if capr == "n" else 1, "T": T_MS, "seed": rnd.randrange(1 << 30),
+                            "fam": fam, "flt": flt, "strict": strict,
+                            # every call asks for the same slot / block, or each for another: alternately
+                            "slots": "same" if taken[0] % 2 else "distinct", "calls": calls})
+
+        for fam in ("stale", "repeat", "pairs", "free"):
+            take(fam, "none", False, HQ[fam] * mult)
+        for flt, (ks, kn) in HQ["leak"].items():
+            if flt == "invalid":
+                for inv in invs:
+                    take("leak", flt, True, ks * mult, inv)
+                    take("leak", flt, False, kn * mult, inv)
+            else:
+                take("leak", flt, True, ks * mult)
+                take("leak", flt, False, kn * mult)
+    if short:
+        vf.log("fewer histories than planned for: %s" % short[:6])
+    if len(short) > 4:
+        raise vf.Broken("too few histories drawn for %d (strategy, family) pairs, e.g. %s" % (len(short), short[:4]))
+    out.sort(key=lambda h: -len(h["calls"]))
     return out
 
 
@@ -221,18 +356,39 @@ def hint(replay_dir):
     """Which part of C07 a rejected call most plainly contradicts (explanation only, not the verdict)."""
     try:
         rows = vf.read_ndjson(os.path.join(replay_dir, "trace.ndjson"))
-        a = [r for r in rows if r["ev"] == "Reset"][0]
-        b = [r for r in rows if r["ev"] == "Return"][0]
+        call = 0
+        with open(os.path.join(replay_dir, "note.txt")) as fh:
+            for line in fh:
+                if line.startswith("next/offending trace line:"):
+                    call = json.loads(line.split(":", 1)[1]).get("call", 0)
+        resets = [r for r in rows if r["ev"] == "Reset"]
+        if not call:
+            call = resets[-1]["call"]
+        a = [r for r in resets if r["call"] == call][0]
+        b = [r for r in rows if r["ev"] == "Return" and r["call"] == call][0]
     except Exception:
         return ""
+    where = ""
+    if a.get("calls", 1) > 1:
+        where = " [call %d of %d on one instance (process concurrency %d, started '%s')]" % (
+            call, a["calls"], a.get("pcy", 0), a.get("at", "seq"))
+    return _hint(a, b) + where
+
+
+def _hint(a, b):
     T = a["T"]
     eps = max(T // 4, 40)
     obs = a["obs"]
     valid_in_time = [o for o in obs if o["k"] == "valid" and o["t"] < T - eps]
+    if any(o["k"] == "none" for o in obs):
+        return "a node was never asked (or its request never ended): the fan-out to every node is missing in this call"
     if b["noreturn"] or b["t"] > T + eps:
         return "ReturnsByHard: no return by T + Eps"
     if b["ok"] and b["nildata"]:
         return "InvalidNeverReturned: success reported with missing data"
+    if b["ok"] and b.get("of", a["call"]) != a["call"]:
+        return ("FirstIsSome/InvalidNeverReturned: the returned object was made for call %d of the instance - "
+                "no node gave it in this call" % b["of"])
     if b["ok"] and a["variant"] in ("Best", "First"):
         if not 1 <= b["who"] <= a["n"]:
             return "FirstIsSome/InvalidNeverReturned: the returned object is no node's response"
@@ -250,8 +406,31 @@ def hint(replay_dir):
     return "the decision is not admitted at this instant (returned before the variant may decide, or not the variant's choice)"
 
 
+# designs that keep state in the instance (spec/CollectorSem.tla): right on a fresh instance, and TLC must reject
+# them over histories / overlap - else the history part of the model says nothing
+CONTROLS = [("MC_CollectorSem_leak.cfg", "MajorityRule"), ("MC_CollectorSem_leak_best.cfg", "ErrorIffNothing"),
+            ("MC_CollectorSem_tally.cfg", "MajorityRule")]
+CONTROLS_FRESH = ["MC_CollectorSem_fresh.cfg", "MC_CollectorSem_tally_fresh.cfg"]
+
+
 def model_check(v, tier):
-    v.add_mc(vf.tlc_exhaustive(PID, "Collector", "MC_Collector.cfg"))
+    with ThreadPoolExecutor(max_workers=3) as ex:
+        main = ex.submit(vf.tlc_exhaustive, PID, "Collector", "MC_Collector.cfg", 4)
+        # two calls in flight on one instance
+        pair = ex.submit(vf.tlc_exhaustive, PID, "CollectorInst",
+                         "MC_CollectorInst_big.cfg" if tier == "thorough" else "MC_CollectorInst.cfg", 4, 2400)
+        fresh = [ex.submit(vf.tlc_exhaustive, PID, "CollectorSem", c, 2) for c in CONTROLS_FRESH]
+        ctl = [(c, inv, ex.submit(vf.tlc, PID, "ctl-" + c.replace(".cfg", ""), "CollectorSem", c, 2, 600)) for c, inv in CONTROLS]
+        v.add_mc(main.result())
+        v.add_mc(pair.result())
+        for f in fresh:
+            v.add_mc(f.result())
+        for c, inv, f in ctl:
+            r = f.result()
+            if r["kind"] != "invariant" or r["violated"] != inv:
+                raise vf.Broken("%s no longer violates %s: the model of the long-lived instance is vacuous (%s %s)"
+                                % (c, inv, r["kind"], r["violated"]))
+            vf.log("control %s: rejected by TLC as it must be (%s)" % (c, inv))
     if tier == "thorough":
         v.add_mc(vf.tlc_exhaustive(PID, "Collector", "MC_Collector_big.cfg", timeout=1500))
         # NoBlockedSender is recorded for C20 and is not part of C07's verdict: it holds when every channel has
@@ -271,19 +450,33 @@ def run(tier):
         "beacon nodes are scripted fakes that answer at their scripted instant whatever the request context does "
         "(silent nodes wait for the context); T = %d ms" % T_MS,
         "scores are computed by the real score functions (seam VerifC07Score) from real response objects",
+        "a history runs on one real instance constructed once as main.go does (process concurrency 1..3 in histories, "
+        "1..16 for single calls; time-out; threshold); calls that overlapped in real time are judged one by one "
+        "(CollectorInst.tla: no step of a call reads or writes the other)",
     ]
     model_check(v, tier)
     sc = scenarios(tier)
-    vf.log("%d scenarios on %d strategies" % (len(sc), len(STRATS)))
+    hs = [s for s in sc if s.get("calls")]
+    vf.log("%d scenarios on %d strategies: %d single calls on a fresh instance, %d histories on one instance (%d calls, "
+           "%d of them started while another was in flight)" % (
+               len(sc), len(STRATS), len(sc) - len(hs), len(hs), sum(len(h["calls"]) for h in hs),
+               sum(1 for h in hs for c in h["calls"] if c["at"] != "seq")))
     orig_report = v.report
     v.report = lambda sig, what, d: orig_report(sig, what + " -- " + hint(d) + " -- " + json.dumps(sig), d)
     vf.conformance(v, sc, driver, "Trace_Collector", "Trace_Collector.cfg", sig_of, nontrivial, chunk=1500,
                    tlc_timeout=1200)
-    v.coverage["rule"] = ("initial states of Collector.tla enumerated by TLC (all multisets of node behaviours x phases, "
-                          "n <= 4; quick: seeded stratified sample, thorough: all with n <= 3 plus a sample of n = 4) "
-                          "replayed in real time on every real strategy; non-trivial = the strategy had a choice to "
-                          "make or a fault to tolerate (see features() in checks/C07.py); distinct by scenario content")
+    v.coverage["rule"] = ("(a) initial states of Collector.tla enumerated by TLC (all multisets of node behaviours x phases, "
+                          "n <= 4; quick: seeded stratified sample, thorough: all with n <= 3 plus a sample of n = 4), each a "
+                          "single call on a fresh instance; (b) histories of >= process concurrency + 2 calls on ONE instance "
+                          "drawn by TLC (simulation) from Scen_CollectorInst.tla, n <= 3, families leak / stale / repeat / pairs / "
+                          "free, sequential and overlapped calls; both replayed in real time on every real strategy; a scenario "
+                          "(= the unit of evaluation, confirmation and replay) is a single call or a whole history; "
+                          "non-trivial = the strategy had a choice to make or a fault to tolerate in some call "
+                          "(see features() in checks/C07.py); distinct by scenario content")
     extra = {"strategies": len(STRATS), "proposal_best_nil_data_included": bool(_state["proposal_nil_ok"]),
+             "histories": len(hs), "calls_in_histories": sum(len(h["calls"]) for h in hs),
+             "overlapped_calls": sum(1 for h in hs for c in h["calls"] if c["at"] != "seq"),
+             "histories_by_family": {f: sum(1 for h in hs if h["fam"] == f) for f in sorted({h["fam"] for h in hs})},
              "scenarios_rerun_after_stall": _state["reruns"],
              "c20_scenarios_with_blocked_sender_by_strategy": dict(sorted(_state["blocked"].items()))}
     return v.finish(extra=extra)
@@ -291,15 +484,21 @@ def run(tier):
 
 def selftest(tier):
     """Binding demonstration on recorded traces: every accepted call of a fresh run, with one recorded field
-    corrupted (worse response, error instead of result, late return, minority value, ...), must be rejected."""
-    import copy
+    corrupted (worse response, error instead of result, late return, minority value, an object of an earlier call,
+    a node never asked, ...), must be rejected."""
     rnd = random.Random(vf.seed())
-    sc = [s for s in scenarios("quick") if s["n"] >= 2]
+    allsc = scenarios("quick")
+    sc = [s for s in allsc if not s.get("calls") and s["n"] >= 2]
     rnd.shuffle(sc)
     allearly = [s for s in sc if len(in_time_valid(s)) >= 2 and all(p["ph"] == "early" for p in in_time_valid(s))]
-    sc = allearly[:200] + [s for s in sc if s not in allearly][:200]
+    hs = [s for s in allsc if s.get("calls")]
+    rnd.shuffle(hs)
+    sc = allearly[:200] + [s for s in sc if s not in allearly][:200] + hs[:60]
+    for i, s in enumerate(sc):
+        s["sc"] = i + 1
     rows = driver(sc, "selftest")
-    pairs = [(rows[i], rows[i + 1]) for i in range(0, len(rows), 2)]
+    single = {s["sc"] for s in sc if not s.get("calls")}
+    pairs = [(rows[i], rows[i + 1]) for i in range(0, len(rows), 2) if rows[i]["sc"] in single]
     T = T_MS
     eps = max(T // 4, 40)
     cases = []
@@ -308,7 +507,7 @@ def selftest(tier):
         if sum(1 for c in cases if c[0] == name) < 3:
             b2 = dict(b)
             b2.update(chg)
-            cases.append((name, a, b2))
+            cases.append((name, [a, b2]))
 
     for a, b in pairs:
         obs = a["obs"]
@@ -322,7 +521,7 @@ def selftest(tier):
         if b["t"] > T - eps // 2:
             add("return later than T + Eps", a, b, t=T + eps + 20)
         if not b["ok"] and a["variant"] in ("Best", "First") and obs[0]["k"] != "valid":
-            add("error replaced by a non-acceptable node's response", a, b, ok=True, who=1)
+            add("error replaced by a non-acceptable node's response", a, b, ok=True, who=1, of=1)
         if a["variant"] in ("Majority", "RootMajority") and b["ok"]:
             c = {}
             for o in obs:
@@ -333,19 +532,41 @@ def selftest(tier):
         if a["variant"] == "Majority" and not b["ok"]:
             vs = [o["v"] for o in obs if o["k"] == "valid" and o["t"] < T - eps]
             if vs:
-                add("majority: value used below the threshold", a, b, ok=True, val=vs[0])
+                add("majority: value used below the threshold", a, b, ok=True, val=vs[0], of=1)
         if a["variant"] == "First" and b["ok"]:
             later = [i + 1 for i, o in enumerate(obs) if o["k"] == "valid" and o["t"] > b["t"]]
             if later:
                 add("first: response of a node that had not answered yet", a, b, who=later[0])
+    # histories: one field of one LATER call corrupted, the whole history validated
+    by = {}
+    for r in rows:
+        if r["sc"] not in single:
+            by.setdefault(r["sc"], []).append(r)
+
+    def addh(name, hist, idx, **chg):
+        if sum(1 for c in cases if c[0] == name) < 3:
+            h2 = [dict(r) for r in hist]
+            h2[idx].update(chg)
+            cases.append((name, h2))
+
+    for hist in by.values():
+        for i in range(2, len(hist), 2):
+            a, b = hist[i], hist[i + 1]
+            if b["ok"]:
+                addh("history: the object returned was made for an earlier call", hist, i + 1, of=a["call"] - 1)
+                addh("history: a later call answered without asking a node", hist, i,
+                     obs=[dict(a["obs"][0], k="none", calls=0, t=0)] + a["obs"][1:])
+            if b["ok"] and a["variant"] != "Majority":
+                addh("history: a later call fails although the nodes answered", hist, i + 1, ok=False)
+            addh("history: a later call runs with other construction parameters", hist, i, cap=a["cap"] + 1)
     bad = 0
-    for i, (name, a, b) in enumerate(cases):
+    for i, (name, rws) in enumerate(cases):
         tp = os.path.join(vf.outdir(PID), "selftest.ndjson")
-        vf.write_ndjson(tp, [a, b])
+        vf.write_ndjson(tp, rws)
         res = vf.validate_trace(PID, "Trace_Collector", "Trace_Collector.cfg", tp, name="trace-selftest")
-        vf.log("selftest %-55s %s" % (name, "accepted (BAD)" if res["accepted"] else "rejected"))
+        vf.log("selftest %-70s %s" % (name, "accepted (BAD)" if res["accepted"] else "rejected"))
         bad += 1 if res["accepted"] else 0
-    if len({c[0] for c in cases}) < 6:
+    if len({c[0] for c in cases}) < 9:
         raise vf.Broken("selftest found too few corruptible traces")
     return 1 if bad else 0
 
